@@ -151,6 +151,66 @@ def pipeline(files, base, args=(), includes=None, seed=0, struct_orient=False):
         out.update(mfe=f["mfe"], seqs=f["seqs"], strands=f["strands"])
     return out
 
+STANDIN_DESIGNER = r"""
+import sys, random
+GROUP = {"A": "A", "T": "T", "C": "C", "G": "G", "R": "AG", "Y": "CT", "W": "AT", "S": "CG", "M": "AC", "K": "GT",
+         "B": "CGT", "V": "ACG", "D": "AGT", "H": "ACT", "N": "ACGT"}
+COMP = {"A": "T", "T": "A", "C": "G", "G": "C"}
+args = dict(a.split("=", 1) for a in sys.argv[1:] if "=" in a)
+st = open(args["template"]).read()
+wc = [int(x) for x in open(args["wc"]).read().split()]
+eq = [int(x) for x in open(args["eq"]).read().split()]
+assert len(st) == len(wc) == len(eq), (len(st), len(wc), len(eq))
+rng = random.Random(int(args.get("seed", "0")))
+nts = []
+for i, letter in enumerate(st):            # the files are 1-based; 0 / -1 mean none
+    if letter == " ": nts.append(" ")
+    elif eq[i] - 1 != i: nts.append(nts[eq[i] - 1])
+    elif wc[i] > 0 and wc[i] - 1 < i: nts.append(COMP[nts[wc[i] - 1]])
+    else: nts.append(rng.choice(GROUP[letter]))
+for i, letter in enumerate(st):            # the answer satisfies the three files
+    if letter != " ":
+        assert nts[i] in GROUP[letter] and nts[i] == nts[eq[i] - 1] and (wc[i] < 0 or nts[i] == COMP[nts[wc[i] - 1]]), i
+print("Automatic: counted %d unique base equivalence classes." % len(set(eq)))
+for k in range(int(args.get("trace", "0"))):   # the search trace spuriousSSM prints before its answer
+    print("%8d steps, %8d seconds : score = %18.10f" % (k * 1000, k, 1000.0 / (k + 1)))
+print("%8d steps, %8d seconds : score = %18.10f FINAL" % (0, 0, 0.0))
+print("".join(nts))
+"""
+
+def pipeline_design(files, base, args=(), includes=None, seed=0, struct_orient=False, trace=0):
+    """compile -> spurious_design.design() with a stand-in designer that answers any assignment satisfying the files it
+    is given, printed the way spuriousSSM prints its result -> finish.  The arrays travel through the .st/.wc/.eq files
+    and the answer through the .sp file, as in pepper-design-spurious."""
+    import contextlib, io, sys
+    r = compile_files(files, base, args=args, includes=includes, keep=True)
+    d = r["dir"]
+    out = {"ctr0": r["ctr0"], "stage": "compile", "outcome": r["outcome"], "error": r.get("error")}
+    try:
+        if r["outcome"] != "ok":
+            return out
+        from peppercompiler.design import spurious_design as SD
+        designer = os.path.join(d, "standin_designer.py")
+        with open(designer, "w") as f: f.write(STANDIN_DESIGNER)
+        err = io.StringIO()
+        mfe = os.path.join(d, "out.mfe")
+        try:
+            with contextlib.redirect_stdout(err), contextlib.redirect_stderr(err):
+                SD.design(os.path.join(d, "out"), os.path.join(d, "out.pil"), mfe, cleanup=False, struct_orient=struct_orient, findmfe=False,
+                          spuriousbinary="%s %s seed=%d trace=%d" % (sys.executable, designer, seed, trace))
+        except SystemExit:
+            out.update(stage="design", outcome="failed", error="exit " + err.getvalue()[-300:]); return out
+        except Exception as e:
+            out.update(stage="design", outcome="failed", error="%s: %s" % (type(e).__name__, str(e)[:300])); return out
+        finally:
+            stf = os.path.join(d, "out.st")
+            if os.path.exists(stf): out["positions"] = len(open(stf).read())
+        o, seqs, strands, e = run_finish(d, open(mfe).read(), "d")
+        out.update(stage="finish", outcome="ok" if o == "ok" else "failed", error=e, seqs=seqs, strands=strands)
+        return out
+    finally:
+        shutil.rmtree(d, ignore_errors=True)
+
 def run_finish(d, mfe_text, tag="x"):
     """finish against d/out.save with the given design text; returns (outcome, seqs, strands, error)"""
     import contextlib, io
